@@ -55,13 +55,13 @@ CHECKS = {
    note="The exactly-when half is decided in the puppet world."),
 
  "C04": dict(ref="5/C04", tech="deterministic simulation (puppet world: one real node, harness holds all other keys) + seeded search over 36 kinds of invalid variant; 'no effect' oracles on votes, store writes, round evidence and emitted certificates",
-   text="Exploration: invalid variants of proposals, votes, timeouts, QCs and TCs (flipped signature bits, altered signed fields with the signature kept, signatures transplanted between blocks and message kinds, repeated / non-member signers, one signer below quorum, certificates over another round or for future rounds, superfluous invalid TCs on otherwise valid proposals, degenerate round-0 / zero-hash certificates, certificates padded with an invalid entry after a genuine quorum) are delivered between valid traffic; the node must never vote for, store or commit a block of which it only saw an invalid variant, never act in a round that only an invalid certificate justifies, never emit a certificate containing an invalid vote/timeout, and must still vote for the next valid proposal after rejections.",
+   text="Exploration: invalid variants of proposals, votes, timeouts, QCs and TCs (flipped signature bits, altered signed fields with the signature kept, signatures transplanted between blocks and message kinds, repeated / non-member signers, one signer below quorum, certificates over another round or for future rounds, superfluous invalid TCs on otherwise valid proposals, degenerate round-0 / zero-hash certificates, certificates padded with an invalid entry after a genuine quorum; half of the invalid proposals with a payload name a batch the node can fetch from the harness on request) are delivered between valid traffic; the node must never vote for, store or commit a block of which it only saw an invalid variant, never act in a round that only an invalid certificate justifies, never emit a certificate containing an invalid vote/timeout, and must still vote for the next valid proposal after rejections.",
    note="The twin-run non-interference oracle of DESIGN.md was not built; 'behaviour unchanged' is judged through the no-effect oracles and the expected-vote model."),
  "C20": dict(ref="5/C20", tech="deterministic simulation (puppet world) + seeded single-field-variant and cross-kind splice injection judged by the node's reaction; store/wire round trip through the real sync path",
    text="Exploration: variants differing in one bound field (author, round, payload entry, parent, payload/parent boundary shift, swapped round/QC round) or carrying a signature of another kind (vote<->timeout<->block) re-use the original signature and must be rejected (no vote, no store); blocks fetched from the node's helper must be byte-identical to a block it was given under that digest; every frame the node writes must decode and its own signatures must verify under the independently computed digests.",
    note="Parts (a)/(b) of the statement are pure; they are decided here only through the real node's reaction to injected variants (input generation inside a simulation), as DESIGN.md states."),
  "C14": dict(ref="5/C14", cat="fault_enumeration", tech="deterministic simulation of the real ReliableSender against the real Receiver; complete enumeration of a finite connection-fault sub-space plus seeded exploration; delivery/order/ACK-pairing/cancellation monitor",
-   text="Fault enumeration: for 1..4 messages (burst or spaced) the first connection is broken at every frame position in either direction (request lost / just received, acknowledgement lost / just received), crossed with 0..3 refused reconnections and with one cancellation at every position: 3472 cases, all executed on every run. On top, seeded exploration with up to 50 messages, several breaks, peer-down intervals, random cancellations, short/pending writes and split reads. Oracle: every kept message delivered and its handle resolved within the quiet tail, first deliveries in hand-over order, a handle resolves only with ack:<its own message> and not before the peer received it, a cancelled message is not written on connections opened after the cancellation.",
+   text="Fault enumeration: for 1..4 messages (burst or spaced) the first connection is broken at every frame position in either direction (request lost / just received, acknowledgement lost / just received), crossed with 0..3 refused reconnections and with one cancellation at every position: 3472 cases, all executed on every run. On top, seeded exploration with up to 50 messages, several breaks, peer-down intervals, random cancellations, short/pending writes and split reads; a quarter of the exploration scenarios are a steady sender through an outage (a message every 20-150 ms while the peer is unreachable and until the doubling back-off must have reconnected, run ending 100 ms after the last hand-over). Oracle: every kept message delivered and its handle resolved within the quiet tail, first deliveries in hand-over order, a handle resolves only with ack:<its own message> and not before the peer received it, a cancelled message is not written on connections opened after the cancellation.",
    note="Beyond the enumerated sub-space this is sampling. A break loses the bytes in flight in both directions."),
  "C15": dict(ref="5/C15", tech="deterministic simulation in two builds + seeded hostile-frame injection on all three ports; process-wide panic hook and functional service probes",
    text="Exploration in both build configurations: 20-200 hostile inputs per run (random bytes, oversize and truncated frames, mutated copies of real frames, out-of-range tags, huge lengths, malformed key strings, cross-component digests of the shared store, unknown origins, absurd rounds signed by a harness-held authority, 1 MiB transactions) followed by probes of every service of every node: still commits, answers a block sync request and a batch request from its store, batches a fresh transaction; any panic inside /repo code is a violation.",
